@@ -97,8 +97,14 @@ def key_norm(k):
     return norm_def(k)
 
 
-def invariant(w, with_counters=True, named=False, focus=()):
-    """Representation invariant of the table model (Inv_T)."""
+def invariant(w, with_counters=True, named=False, focus=(), pre=None):
+    """Representation invariant of the table model (Inv_T).
+
+    `pre` (arrays T.live/T.key/T.raw/T.idx on which Inv_T was ASSUMED at the start of the path): the
+    untouched part of the backward direction is then stated on fresh constants (k0, b0) -- validity of a
+    universally quantified goal is validity of its body on fresh constants -- under the instance of the
+    assumed invariant at (k0, b0), which the path condition entails; this spares the solver the
+    quantifier instantiation that made the obligation time out under load."""
     r = z3.Int('r_inv')
     k = z3.Const('k_inv', DbVal)
     b = z3.Bool('b_inv')
@@ -121,6 +127,12 @@ def invariant(w, with_counters=True, named=False, focus=()):
             away.append(z3.Not(z3.And(k == key_norm(fk), b == fb)))
         rest = z3.ForAll([k, b], z3.Implies(z3.And(e != 0, *away), z3.And(
             z3.Select(live, e), key_norm(z3.Select(key, e)) == k, z3.Select(raw, e) == b)))
+        if pre is not None:
+            k0, b0 = z3.FreshConst(DbVal, 'k_sk'), z3.FreshConst(z3.BoolSort(), 'b_sk')
+            e0 = z3.Select(z3.Select(pre['T.idx'], k0), b0)
+            hyp = z3.Implies(e0 != 0, z3.And(z3.Select(pre['T.live'], e0), key_norm(z3.Select(pre['T.key'], e0)) == k0,
+                                             z3.Select(pre['T.raw'], e0) == b0))
+            rest = z3.Implies(hyp, z3.substitute(rest.body(), (z3.Var(1, DbVal), k0), (z3.Var(0, z3.BoolSort()), b0)))
         bw_parts = [('index_backward.touched', z3.And(*insts)), ('index_backward.rest', rest)]
     else:
         bw_parts = [('index_backward', bw)]
@@ -208,6 +220,7 @@ class Sql:
         self.triggers = triggers            # parsed trigger list
         self.faults = False                 # statements may raise sqlite errors nondeterministically
         self.busy = True                    # BEGIN IMMEDIATE may fail (lock held elsewhere)
+        self.auto_rollback = False          # ROLLBACK may find that SQLite already rolled the transaction back itself
 
     def execute(self, it, a, k):
         st = it.st
@@ -265,8 +278,15 @@ class Sql:
             raise_py('sqlite3.OperationalError', 'cannot commit - no transaction is active')
         w['txn.active'] = False
         w['txn.snapshot'] = None
-        it.st.effect('COMMIT', world={k: v for k, v in w.items() if k.startswith(('T.', 'S.', 'F.'))})
+        it.st.effect('COMMIT', world={k: v for k, v in w.items() if k.startswith(('T.', 'S.', 'F.'))}, **self._owner(it))
         return []
+
+    @staticmethod
+    def _owner(it):
+        """The Cache object's owner mark (_txn_id) at the moment the write lock is released."""
+        me = it.st.ghost.get('self')
+        fields = getattr(me, 'fields', None)
+        return {'owner': fields.get('_txn_id')} if isinstance(fields, dict) and '_txn_id' in fields else {}
 
     def x_rollback(self, it, T, ps, params):
         w = it.st.world
@@ -275,7 +295,13 @@ class Sql:
         T.restore(w['txn.snapshot'])
         w['txn.active'] = False
         w['txn.snapshot'] = None
-        it.st.effect('ROLLBACK', world={k: v for k, v in w.items() if k.startswith(('T.', 'S.', 'F.'))})
+        if self.auto_rollback and it.st.decide(2) == 1:
+            # SQLite rolls a transaction back on its own after some errors (interrupt, I/O error, out of
+            # memory, disk full); the explicit ROLLBACK then fails
+            it.st.effect('ROLLBACK', world={k: v for k, v in w.items() if k.startswith(('T.', 'S.', 'F.'))}, auto=True,
+                         **self._owner(it))
+            raise_py('sqlite3.OperationalError', 'cannot rollback - no transaction is active')
+        it.st.effect('ROLLBACK', world={k: v for k, v in w.items() if k.startswith(('T.', 'S.', 'F.'))}, **self._owner(it))
         return []
 
     def x_vacuum(self, it, T, ps, params):
